@@ -1,3 +1,16 @@
-/-! # C15 — (stub: property theorems go here; see docs/BUILDING.md) -/
+import PtVerif.Proofs.DecayTime
+/-!
+# C15 — `decay_time(target)` returns the time at which total activity reaches the target
+-/
 namespace PtVerif.C15
+open PtModel.Activation
+
+/-- a returned time is ≥ 0 and is either the early exit (0, already at or below the target)
+    or a time at which `Σ Aᵢ·exp(-λᵢ t)` is within 0.1 % of the target -/
+theorem accepted_is_within_tolerance (data : List (ℝ × ℝ)) (target t : ℝ)
+    (hd : ∀ d ∈ data, 0 ≤ d.1 ∧ 0 ≤ d.2) (htarget : 0 < target)
+    (h : decayTimeOfData data target = .ok t) :
+    0 ≤ t ∧ ((total data 0 ≤ target ∧ t = 0) ∨ |total data t - target| ≤ target / 1000) :=
+  decayTimeOfData_accepted data target t hd htarget h
+
 end PtVerif.C15
